@@ -37,11 +37,11 @@ COMPONENTS = {"real": ["TunnelCommunity (create/extend/data/ping/test paths)", "
 ASSUMPTIONS = ["ChaCha20-Poly1305 in ipv8_rust_tunnels is trusted (the oracle peels layers with the same primitive)",
                "no replay protection is demanded: an exact or flag-flipped duplicate of a genuine cell may deliver its payload "
                "twice; only *altered or foreign* data must never be delivered",
-               "hidden-service (e2e) circuits are not covered by this module",
                "the native ipv8_rust_tunnels.Endpoint is not covered"]
 REACH = ["delivered_forward", "delivered_backward", "layer_checked_forward", "layer_checked_backward", "hops:1", "hops:2",
          "hops:3", "fault:flip", "fault:cid", "fault:splice", "fault:inject", "fault:flag", "fault:plain_data", "tampered_dropped",
-         "speedtest_ok", "e2e_linked", "e2e_delivered", "e2e_reader_checked", "sent_from_ready_callback", "plain_reader_checked"]
+         "speedtest_ok", "e2e_linked", "e2e_delivered", "e2e_reader_checked", "sent_from_ready_callback", "plain_reader_checked",
+         "e2e_ipv8_shaped_payload", "fault:reflect"]
 
 SIZES = [2, 3, 10, 22, 23, 24, 64, 100, 279, 500, 1000, 1399, 1400]
 
@@ -63,18 +63,24 @@ def cases(tier: str, base_seed: int):  # noqa: ANN201
     for k in range(3 if tier == "quick" else 12):
         n += 1
         yield {"kind": "e2e", "seed": base_seed + n, "knobs": {"lat_jit": 0.0}, "sizes": [64, 279, 1000], "faults": [],
-               "send_in_callback": k % 2 == 0}
+               "send_in_callback": k % 2 == 0, "shape": ("bt", "ipv8", "own_prefix")[k % 3]}
+    # the rendezvous point (which holds hop keys, not the e2e keys) reflects relayed cells into the half they came from
+    for k in range(2 if tier == "quick" else 8):
+        n += 1
+        yield {"kind": "e2e", "seed": base_seed + n, "knobs": {"lat_jit": 0.0}, "sizes": [64, 279, 500], "send_in_callback": False,
+               "shape": ("bt", "ipv8")[k % 2], "faults": [{"kind": "reflect", "cell": j, "pos": 0.5, "mask": 1, "mode": "extra"}
+                                                           for j in range(k % 2, 6, 2)]}
     for i in itertools.count():
         seed = base_seed + 1000 + i
         rng = random.Random(f"c04/{seed}")
         if i % 6 == 5:
             fl = []
             for _ in range(rng.choice([0, 0, 2, 6])):
-                fl.append({"kind": rng.choice(["flip", "flip", "flag", "cid", "inject"]), "cell": rng.randrange(0, 40),
+                fl.append({"kind": rng.choice(["flip", "flip", "flag", "cid", "inject", "reflect"]), "cell": rng.randrange(0, 40),
                            "pos": rng.random(), "mask": 1 << rng.randrange(8), "mode": rng.choice(["alter", "extra"])})
             yield {"kind": "e2e", "seed": seed, "knobs": {"lat_jit": rng.choice([0.0, 0.02]), "timer_jitter": 0.0},
                    "sizes": [rng.randrange(20, 1300) for _ in range(rng.choice([1, 3, 6]))], "faults": fl,
-                   "send_in_callback": rng.random() < 0.5}
+                   "send_in_callback": rng.random() < 0.5, "shape": rng.choice(["bt", "ipv8", "own_prefix", "mixed"])}
             continue
         hops = rng.choice([1, 2, 2, 3, 3])
         sizes = [rng.choice([rng.randrange(2, 1401), rng.choice(SIZES)]) for _ in range(rng.choice([2, 4, 8]))]
@@ -187,6 +193,51 @@ def execute_e2e(case: dict) -> dict:  # noqa: C901, PLR0915
     net.filters.append(flt)
 
     res: dict = {}
+    crafting = {"on": False, "n": 0}
+
+    def on_send_craft(pkt, fate) -> None:  # noqa: ANN001
+        if crafting["on"]:
+            state["tampered_ids"].add(pkt.id)
+    net.on_send.append(on_send_craft)
+
+    def install_reflector() -> None:
+        """
+        A dishonest rendezvous point: it holds the hop keys of both halves (not the end-to-end keys) and sends a copy of a relayed
+        cell back into the half it came from, under its own legitimate hop layer.
+        """
+        from ipv8.messaging.anonymization.payload import CellPayload
+        from ipv8.messaging.anonymization.tunnel import BACKWARD, FORWARD
+        wanted = sorted(f["cell"] for f in faults if f["kind"] == "reflect")
+        if not wanted:
+            return
+        for node in tw.nodes:
+            ce = node.ov.crypto_endpoint
+            orig = ce.relay_cell
+
+            def relay_cell(cell, _orig=orig, _ce=ce, _node=node):  # noqa: ANN001, ANN202
+                nr = _ce.relays.get(cell.circuit_id)
+                if state["phase"] == "data" and nr is not None and nr.rendezvous_relay:
+                    k = crafting["n"]
+                    crafting["n"] += 1
+                    if k in wanted and nr.circuit_id in _ce.relays:
+                        dup = CellPayload(cell.circuit_id, cell.message, cell.plaintext, cell.relay_early)
+                        try:
+                            _ce.decrypt_cell(dup, FORWARD, nr.hop)
+                            _ce.encrypt_cell(dup, BACKWARD, nr.hop)
+                        except Exception:  # noqa: BLE001
+                            dup = None
+                        if dup is not None:
+                            dup.relay_early = False
+                            back = _ce.relays[nr.circuit_id].hop.address
+                            world.probe("fault:reflect")
+                            c.nontrivial(f"reflect/{k}")
+                            crafting["on"] = True
+                            try:
+                                _node.call(_ce.endpoint.send, back, dup.to_bin(_ce.prefix))
+                            finally:
+                                crafting["on"] = False
+                return _orig(cell)
+            ce.relay_cell = relay_cell
 
     async def main() -> None:  # noqa: C901, PLR0915
         await tw.build()
@@ -195,6 +246,7 @@ def execute_e2e(case: dict) -> dict:  # noqa: C901, PLR0915
             node.ov.settings.swarm_lookup_interval = 0
         await tw.introduce()
         d, s_ = tw.nodes[0], tw.nodes[2]
+        install_reflector()
         linked = {"d": None, "s": None}
         first: dict = {}
 
@@ -208,7 +260,17 @@ def execute_e2e(case: dict) -> dict:  # noqa: C901, PLR0915
 
         def mk(direction: str, size: int) -> bytes:
             marker = b"E2E%s%04d" % (direction.encode(), len(sent)) + rng.randbytes(4).hex().encode()
-            payload = b"d" + marker + rng.randbytes(max(0, size - 2 - len(marker))) + b"e"
+            shape = case.get("shape", "bt")
+            if shape == "mixed":
+                shape = ("bt", "ipv8", "own_prefix")[len(sent) % 3]
+            head = b"d"
+            if shape == "ipv8":
+                head = b"\x00\x02" + rng.randbytes(20) + bytes([rng.choice([245, 246, 1, 7])])     # looks like an IPv8 packet
+            elif shape == "own_prefix":
+                head = d.ov.get_prefix() + bytes([rng.choice([1, 3, 10, 20])])                       # ... of the tunnel overlay itself
+            if shape != "bt":
+                world.probe("e2e_ipv8_shaped_payload")
+            payload = head + marker + rng.randbytes(max(0, size - 1 - len(head) - len(marker))) + b"e"
             sent[payload] = (marker, direction)
             return payload
 
